@@ -21,6 +21,8 @@ def family():
     from mc.flo import families as F
     yield from F.fam_cond_aux()
     yield from F.fam_cond_aux_fork()
+    if core.TIER != "quick":
+        yield from F.fam_cond_aux_two()
 
 
 def on_prog(p, idx, label, prog, meta):
